@@ -6,6 +6,7 @@ import (
 	"sort"
 	"strconv"
 	"sync"
+	"sync/atomic"
 	"testing"
 	"time"
 
@@ -122,6 +123,67 @@ func TestProp_ScriptedStageHandover(t *testing.T) {
 		}
 		if limit > 0 && uint64(len(got)) > limit {
 			rt.Fatalf("VERIF-VIOLATION C03: %d invocations with max-iterations %d", len(got), limit)
+		}
+	})
+}
+
+// TestProp_NextIterationHammer: the id dispenser itself under contention for the last ids. G
+// goroutines leave a spin barrier together and each asks the real PoolManager for ids; with a
+// limit N exactly min(N, requests) requests are granted and the granted ids are exactly 1..k.
+func TestProp_NextIterationHammer(t *testing.T) {
+	rapid.Check(t, func(rt *rapid.T) {
+		limit := uint64(rapid.OneOf(rapid.IntRange(1, 4), rapid.IntRange(1, 40)).Draw(rt, "limit"))
+		g := rapid.IntRange(2, 8).Draw(rt, "goroutines")
+		per := rapid.IntRange(1, 4).Draw(rt, "requestsEach")
+		rounds := rapid.SampledFrom([]int{20, 60}).Draw(rt, "rounds")
+		for r := 0; r < rounds; r++ {
+			pm := workers.New(limit, nil)
+			var ready, granted sync.WaitGroup
+			var start atomic.Bool
+			got := make([][]uint64, g)
+			ready.Add(g)
+			granted.Add(g)
+			for i := 0; i < g; i++ {
+				go func(i int) {
+					defer granted.Done()
+					ready.Done()
+					for !start.Load() {
+					}
+					for k := 0; k < per; k++ {
+						if id, err := pm.NextIteration(); err == nil {
+							got[i] = append(got[i], id)
+						}
+					}
+				}(i)
+			}
+			ready.Wait()
+			start.Store(true)
+			granted.Wait()
+			var all []uint64
+			for _, ids := range got {
+				all = append(all, ids...)
+			}
+			sort.Slice(all, func(i, j int) bool { return all[i] < all[j] })
+			want := uint64(g * per)
+			if limit < want {
+				want = limit
+			}
+			if r == 0 {
+				stats.Case("hammer", fmt.Sprint(limit, g, per, rounds), uint64(g*per) > limit, []string{}, func() any {
+					return map[string]any{"limit": limit, "goroutines": g, "requests_each": per, "rounds": rounds}
+				})
+			}
+			if uint64(len(all)) != want {
+				rt.Fatalf("VERIF-VIOLATION C03: limit %d, %d goroutines x %d requests at the same instant: %d ids were granted (%v), exactly %d may be", limit, g, per, len(all), all, want)
+			}
+			for i, id := range all {
+				if id != uint64(i+1) {
+					rt.Fatalf("VERIF-VIOLATION C03: limit %d, %d goroutines x %d requests: granted ids %v are not exactly 1..%d each once", limit, g, per, all, len(all))
+				}
+			}
+			if !pm.MaxIterationsReached() && uint64(g*per) > limit {
+				rt.Fatalf("VERIF-VIOLATION C03: limit %d: %d requests were made but MaxIterationsReached() is false", limit, g*per)
+			}
 		}
 	})
 }
